@@ -36,6 +36,8 @@ CheckAbs(c) ==
     ELSE IF \E n \in DOMAIN exp : Len(Decode(c.stream)[n].ops) # Len(exp[n].ops) THEN "rej:C09_OperandCount"
     ELSE IF \E n \in DOMAIN exp : Decode(c.stream)[n].ops # exp[n].ops THEN "rej:C09_NormalForm"
     ELSE IF c.stream # Encode(Decode(c.stream)) THEN "rej:C10_Encoding"
+    \* the same object asked a second time hands the same text to the matcher
+    ELSE IF c.again # c.stream THEN "rej:C10_SecondScanWithTheSameObjectDiffers"
     ELSE "ok"
 
 \* when address / mnemonic disagree the operand clauses are still decidable (the counts agree): they are reported
@@ -72,6 +74,7 @@ CheckText(c) ==
               /\ \A k \in DOMAIN T[n].ops : NormOfText(T[n].ops[k]).ok
               /\ \E k \in DOMAIN T[n].ops : D[n].ops[k] # NormOfText(T[n].ops[k]).v
          THEN "rej:C09_NormalForm"
+    ELSE IF c.again # c.stream THEN "rej:C10_SecondScanWithTheSameObjectDiffers"
     ELSE "ok"
 
 \* mode "pair" (C16): two printings of the same code by the real objdump (other options,
